@@ -320,6 +320,19 @@ pub fn run(ctx: &Ctx, rep: &mut Report) {
                 }
                 rep.count("c17:compared");
             }
+            if ctx.prop == "C20" {
+                // sized types: the same value as Default::default()
+                if let Some(dv) = (vt.rust_default)() {
+                    if got_val.as_ref() != Some(&dv) {
+                        rep.violation(
+                            format!("C20|differs-from-Default::default|{}", kind_path(d)),
+                            format!("{}: default_in_place gives {} but Default::default() is {}", vt.name, got_val.as_ref().map(|v| v.short()).unwrap_or_default(), dv.short()),
+                            cj(),
+                        );
+                    }
+                    rep.count("c20:compared-with-Default::default");
+                }
+            }
             if ctx.prop == "C20" && !lean {
                 // independence from prior contents: run again on different garbage and compare the non-padding bytes
                 let mut arena2 = Arena::new(n, case.off, case.place, case.garbage ^ 0x1234);
